@@ -4,7 +4,7 @@ PID = "C03"
 
 
 def run(tier, seed):
-    return exec_common.run_exec(PID, tier, seed, 2, scns=("exec", "cancelnew"), pre=exec_common.join_proto_model)
+    return exec_common.run_exec(PID, tier, seed, 2, scns=("exec", "cancelnew", "cancelmix"), pre=exec_common.join_proto_model)
 
 
 def replay(path):
